@@ -12,9 +12,13 @@ def extras():
     """documented extras beyond the grammar: embedded struct at the root, bool-only struct,
     excluded fields; (embedding inside a group is C14's known finding)"""
     F = S.F
-    return [
+    port = S.portfolio()
+    for sh in port:
+        sh.name = "x_" + sh.name
+        sh.desc = "extra:" + sh.desc
+    return port + [
         S.Shape("x_boolonly", [F("A", "req", "bool"), F("B", "opt", "bool"), F("C", "rep", "bool")], desc="extra:bool-only struct"),
-        S.Shape("x_embroot", [F("ID", "req", "int32"), F("Being", "req", [F("Age", "opt", "int32"), F("Name", "req", "string")], embedded=True)], desc="extra:embedded at root"),
+        S.Shape("x_embroot2", [F("ID", "req", "int32"), F("Being", "req", [F("Age", "opt", "int32"), F("Name", "req", "string")], embedded=True)], desc="extra:embedded at root"),
         S.Shape("x_excluded", [F("A", "req", "int64"), F("B", "opt", "string")],
                 extra_decl={(): [(0, "hidden int32"), (1, 'Skip struct{ Y int32 } `parquet:"-"`'), (2, "_pad uint64")]}, desc="extra:excluded fields"),
     ]
